@@ -1200,10 +1200,15 @@ func walkOne(qids []QID, from File, fromNode *pathNode, names []string, getattr 
 				// path node of the file it is called on, which is
 				// the child here. Locking a child while holding its
 				// parent is the order tunlinkat uses as well.
+				// The unlock is deferred: GetAttr is a backend call and
+				// may panic; the panic is recovered per request and must
+				// not leave the child's node locked.
 				childNode := fromNode.pathNodeFor(names[0])
-				childNode.opMu.RLock()
-				_, valid, attr, err = sf.GetAttr(AttrMaskAll)
-				childNode.opMu.RUnlock()
+				func() {
+					childNode.opMu.RLock()
+					defer childNode.opMu.RUnlock()
+					_, valid, attr, err = sf.GetAttr(AttrMaskAll)
+				}()
 			} else {
 				_, valid, attr, err = sf.GetAttr(AttrMaskAll)
 			}
